@@ -130,7 +130,7 @@ package controller
 //@   prop C09 C17
 //@   requires c != nil && c.quit != nil && c.done != nil
 //@   modifies all
-//@   ensures @returns-only-after-the-event-loop-has-finished waitedfor(c.done)
+//@   proves @returns-only-after-the-event-loop-has-finished waitedfor(c.done)
 
 //@ func (*Controller).Start
 //@   prop C17 C09
